@@ -482,3 +482,30 @@ Proof.
               (conj C03.SitesTie.selected_context_from_source C03.SitesTie.stack_choice_from_source)).
 Qed.
 Print Assumptions c03_process_matches_source.
+
+(* ---- the size of the result against the size of the input: the call stacks of the whole ProcessState together hold at most
+   |thread list| x (bytes of the largest memory region of the dump + 2) frames, for any stack contents, contexts and symbols
+   (the CFI oracle is arbitrary within its contract).  This is the input-size term of C03's time / memory budget; the
+   harness measures the cost per frame. *)
+Theorem c03_total_frames_bound : forall p cpu a os module_at max_module_addr cfi_walk instr_valid pi,
+  C05.Proofs.arch_ok a -> input_ok a pi -> cfi_contract a cfi_walk ->
+  exists outs req,
+    process_threads p cpu a os module_at max_module_addr cfi_walk instr_valid pi = Ret (outs, req) /\
+    (total_frames outs <= length (pi_threads pi) * (max_region_bytes pi + 2))%nat.
+Proof. exact process_total_frames. Qed.
+Print Assumptions c03_total_frames_bound.
+
+(* ---- print_json's "crashing_thread": self.threads[requesting_thread], output["threads"][requesting_thread] and frames[0]
+   are in bounds for the state the thread loop produced *)
+Theorem c03_crashing_thread_json_total : forall p cpu a os module_at max_module_addr cfi_walk instr_valid pi,
+  C05.Proofs.arch_ok a -> input_ok a pi -> cfi_contract a cfi_walk ->
+  exists r, render_crashing_thread p cpu a os module_at max_module_addr cfi_walk instr_valid pi = Ret r.
+Proof. exact render_crashing_thread_total. Qed.
+Print Assumptions c03_crashing_thread_json_total.
+
+Example c03_nonvacuous_crashing_thread :
+  match render_crashing_thread Debug CpuAmd64 C05.Model.amd64 0 (fun _ => None) 0 (fun _ _ _ _ => None) (fun _ => false) nv_input with
+  | Ret (Some (0%nat, f)) => C05.Model.f_instr f = 4198400
+  | _ => False
+  end /\ max_region_bytes nv_input = 32%nat.
+Proof. split; vm_compute; reflexivity. Qed.
